@@ -293,4 +293,30 @@ theorem appendLabelBytes_eq {k : NameKind} {name l : Bytes} (hck : checkLabel l 
       unfold INLINE_CAP; simp only [Array.size_append]; omega
     simp only [hck, ha, not_true_eq_false, if_false, hlen', h1, h2]
 
+
+/-- the text accumulated by `read` stays strictly below the limit (wire form ≤ 255 octets) -/
+theorem walk_text_len (msg : Bytes) (k : NameKind) (s : LSt) (acc : Bytes) (ls : List Bytes) (n : Nat)
+    (o : WalkOut) (h : walk msg (.read k) s acc ls n = .ok o) (hacc : acc.size < DOMAIN_NAME_MAX_LENGTH) :
+    o.text.size < DOMAIN_NAME_MAX_LENGTH := by
+  generalize hm : Mode.read k = m at h
+  fun_induction walk msg m s acc ls n with
+  | case1 => simp at h
+  | case2 => simp at h
+  | case3 => simp at h
+  | case4 s acc ls n s' hst =>
+    simp only [Res.ok.injEq] at h
+    subst h
+    exact hacc
+  | case5 => simp at h
+  | case6 => simp at h
+  | case7 => simp at h
+  | case8 s acc ls n bytes p s' hst acc' hon ih =>
+    subst hm
+    have := Mode.onLabel_read_ok hon
+    refine ih ?_ h
+    rw [this.1]
+    simp only [Array.size_push, Array.size_append]
+    omega
+  | case9 s acc ls n s' hst ih => exact ih hacc h
+
 end Rsdns
